@@ -1077,7 +1077,7 @@ def split_lm(lm, k, how, rng):
     return pieces
 
 
-def eval_paths(ctx, whole, pieces, tmpdir, layout):
+def eval_paths(ctx, whole, pieces, tmpdir, layout, cwd_shadow=False):
     """a .pvtu whose pieces live in sub-directories, addressed in several ways (search only)"""
     from fieldcompare.io import write, read_field_data
     case = {"kind": "pvtu-paths", "layout": layout, "whole": whole, "pieces": pieces}
@@ -1109,7 +1109,7 @@ def eval_paths(ctx, whole, pieces, tmpdir, layout):
                                  ("dotted", root, os.path.join(".", "run", "..", "run", "u.pvtu")),
                                  ("absolute-again", cwd, pfile)) + \
                     ((("same-named-file-in-cwd", os.path.join(root, "elsewhere"), pfile),)
-                     if (CWD_OPT_IN or case.get("cwd_shadow")) and layout == "flat" else ()):
+                     if (CWD_OPT_IN or cwd_shadow) and layout == "flat" else ()):
                 if how == "same-named-file-in-cwd":
                     # another data set's piece (here: the LAST piece) under the name of the first piece
                     os.makedirs(wd, exist_ok=True)
@@ -1304,7 +1304,7 @@ def _rerun_case(ctx, case):
         elif case["kind"] == "smerge":
             eval_structured_merger(sub, [case["decomp"]], dts=(case["dt"],) if case.get("dt") else ("i32", "i64", "f64", "f32", "i32"))
         elif case["kind"] == "pvtu-paths":
-            eval_paths(sub, case["whole"], case["pieces"], tmpdir, case["layout"])
+            eval_paths(sub, case["whole"], case["pieces"], tmpdir, case["layout"], cwd_shadow=bool(case.get("cwd_shadow")))
         elif case["kind"] == "merge-repeat":
             eval_repeat(sub, case["whole"], case["pieces"], tmpdir)
     finally:
